@@ -212,6 +212,8 @@ def check(ctx, fn, pr, u, shape):
             ctx.viol("C15:exception:" + ctx.exc("infer_redirection", e), dict(wit, recursive=rec))
             results[rec] = None
             continue
+        if isinstance(r, str):
+            ctx.remember("ural.infer_redirection:infer_redirection", [u], {"recursive": rec}, r, cap=4000)
         d = pr.maxdepth["infer_redirection"]
         ctx.notes["max_depth"] = max(ctx.notes.get("max_depth", 0), d)
         if d >= 3:
